@@ -387,7 +387,7 @@ def check(prog, rep, tier):
         rep.ok('R10.d', 'yabgp.message', file='yabgp/message/', found='%d functions scanned, none writes shared state' % nfun)
 
 
-def shared_state_writes(prog, select):
+def shared_state_writes(prog, select, allow_memo=False):
     """Functions that write module-level, class-level or configuration state.
     -> (number of functions scanned, [(FuncInfo, node, description)])"""
     out = []
@@ -441,6 +441,23 @@ def shared_state_writes(prog, select):
                 if isinstance(root, ast.Name) and root.id not in local and \
                         (root.id in mod_names or root.id in f.module.imports or root.id == 'cls'):
                     bad = 'mutates %s' % src_of(node.func.value)
+            if bad and allow_memo and isinstance(node, ast.Assign) and len(node.targets) == 1 and \
+                    isinstance(node.targets[0], ast.Subscript):
+                # a memo table keyed by the complete argument(s): the stored value is a function of the key, so
+                # later calls see what they would have computed themselves
+                k = node.targets[0].slice
+                ks = k.elts if isinstance(k, ast.Tuple) else [k]
+                params = [p for p in f.params if p not in ('self', 'cls')]
+                rebound = set()
+                for n2 in ast.walk(f.node):
+                    if isinstance(n2, (ast.Assign, ast.AugAssign)):
+                        for t2 in (n2.targets if isinstance(n2, ast.Assign) else [n2.target]):
+                            for x in ast.walk(t2):
+                                if isinstance(x, ast.Name) and isinstance(x.ctx, ast.Store):
+                                    rebound.add(x.id)
+                if ks and all(isinstance(x, ast.Name) and x.id in params and x.id not in rebound for x in ks) and \
+                        set(x.id for x in ks) == set(params):
+                    bad = None
             if bad and not is_register:
                 out.append((f, node, bad))
     return nfun, out
